@@ -6,6 +6,7 @@ mod e3_codec;
 mod e4_topicgrid;
 mod e5_commitlog;
 mod e6_fullstack;
+mod e7_flow;
 mod vcore;
 mod wire;
 
@@ -81,6 +82,7 @@ fn replay(path: &str) -> i32 {
         "e1_router" => e1::run::replay(r),
         "e6_fullstack" => c19::replay(r),
         "e6_will" => c19::replay_will(r),
+        "e7_flow" => e7_flow::replay(r),
         "e2_client" => e2::run::replay(r),
         "e3_codec" => e3_codec::replay(r),
         "e4_topicgrid" => e4_topicgrid::replay(r),
